@@ -21,7 +21,7 @@
    itself on the plans of every pair, and [gen_guard] next to it. *)
 From Coq Require Import String List ZArith Bool.
 From Shoot Require Import Base.Str Model.MapVal Model.Mapper Model.MapperEval Model.MapperSpec Model.MapperSafe
-     Model.MapperGen Proofs.MapperValProofs Proofs.MapperSafeProofs Proofs.MapperSafeGenProofs Corr.MapperCorr Proofs.MapperExamples Proofs.MapperExampleProofs.
+     Model.MapperGen Proofs.MapperValProofs Proofs.MapperSafeProofs Proofs.MapperSafeGenProofs Proofs.MapperProgressProofs Corr.MapperCorr Proofs.MapperExamples Proofs.MapperExampleProofs.
 Import ListNotations.
 Local Open Scope string_scope.
 Local Open Scope list_scope.
@@ -95,6 +95,63 @@ Proof. reflexivity. Qed.
 Example C09_example_gen_guard :
   forallb (fun ps => gen_guard (ps_env ps) (ps_fuel ps) (ps_jobs ps)) [ex1; ex2; ex3; ex4] = true.
 Proof. vm_compute. reflexivity. Qed.
+
+(* ---- `<> Panic` alone would also hold for a model that gets STUCK (the third
+   outcome of the evaluator: "the plan does not fit the value", or no fuel).  A
+   safe plan on a well-typed input is never stuck once the fuel covers the size of
+   the input, so the generated methods RUN TO COMPLETION.  Stuck-freedom is proved
+   from the embedded STRUCTURE of the written value only (user mapper methods and
+   conversions need not preserve typing): Proofs/MapperProgressProofs.v. *)
+Theorem C09_runs_to_completion_to : forall e zf U pe,
+  plans_safe e zf pe = true ->
+  forall fuel tn tp recv,
+    find_plans pe tn = Some tp ->
+    has_ty e recv (TPtr (TNamed PSrc tn)) ->
+    vsize recv <= fuel ->
+    exists v, eval_to e zf U pe fuel tn recv = Ok v.
+Proof. exact eval_to_completes. Qed.
+Print Assumptions C09_runs_to_completion_to.
+
+Theorem C09_runs_to_completion_from : forall e zf U pe,
+  plans_safe e zf pe = true ->
+  forall fuel tn tp recv arg,
+    find_plans pe tn = Some tp ->
+    has_ty e arg (TPtr (TNamed PDst (tp_dst tp))) ->
+    vsize arg <= fuel ->
+    exists v, eval_from e zf U pe fuel tn recv arg = Ok v.
+Proof. exact eval_from_completes. Qed.
+Print Assumptions C09_runs_to_completion_from.
+
+(* ... at generator level *)
+Theorem C09_runs_to_completion_to_gen : forall sigma e F jobs pe U,
+  (forall m x, In x (sigma m) <-> In x m) ->
+  (forall jb, In jb jobs -> j_env jb = e /\ j_fuel jb = F) ->
+  gen_guard e F jobs = true ->
+  penv_of sigma jobs = Some pe ->
+  forall fuel tn tp recv,
+    find_plans pe tn = Some tp ->
+    has_ty e recv (TPtr (TNamed PSrc tn)) -> vsize recv <= fuel ->
+    exists v, eval_to e (S F) U pe fuel tn recv = Ok v.
+Proof.
+  intros sigma e F jobs pe U Sg JE G PE fuel tn tp recv FP T Sz.
+  eapply eval_to_completes; eauto. eapply analyse_plans_safe; eauto.
+Qed.
+Print Assumptions C09_runs_to_completion_to_gen.
+
+Theorem C09_runs_to_completion_from_gen : forall sigma e F jobs pe U,
+  (forall m x, In x (sigma m) <-> In x m) ->
+  (forall jb, In jb jobs -> j_env jb = e /\ j_fuel jb = F) ->
+  gen_guard e F jobs = true ->
+  penv_of sigma jobs = Some pe ->
+  forall fuel tn tp recv arg,
+    find_plans pe tn = Some tp ->
+    has_ty e arg (TPtr (TNamed PDst (tp_dst tp))) -> vsize arg <= fuel ->
+    exists v, eval_from e (S F) U pe fuel tn recv arg = Ok v.
+Proof.
+  intros sigma e F jobs pe U Sg JE G PE fuel tn tp recv arg FP T Sz.
+  eapply eval_from_completes; eauto. eapply analyse_plans_safe; eauto.
+Qed.
+Print Assumptions C09_runs_to_completion_from_gen.
 
 (* ---- a nil receiver / nil argument yields nil *)
 Theorem C09_nil_receiver_gives_nil : forall e zf U pe fuel tn tp,
